@@ -3,6 +3,7 @@ import MgpuModel.C03S_Types
 import MgpuModel.C03S_Spec
 import MgpuModel.C03S_Machine
 import MgpuModel.Gen.AluScalar
+import MgpuModel.C03S_Hand
 /-! # C03 (scalar part) — driver entry
 
 `c03 s <arch> <hexbytes> scc= vcc= exec= pc= m0= s=<idx>:<hex>,…`
@@ -14,15 +15,42 @@ namespace C03S
 def specSem (d : DInst) : Option Sem :=
   (Spec.find d.fmt d.op).map fun o => ⟨o.dstW, o.src0W, o.src1W, o.f⟩
 
-/-- the handler translated from the Go source; operand widths as in the specification table (they
-    are the decoder's, property C04).  A hand-modelled handler (`Gen.<arch>.handModelled`) has no
-    translated definition: its model is the specification function itself. -/
-def genSem (arch : String) (d : DInst) : Option Sem := do
+/-- the complete opcode switch of an ALU as modelled: the translated handlers
+    (`Gen.<arch>.dispatch`) and, for the handlers the translator lists as hand-modelled, the
+    hand-written transcriptions of `C03S_Hand.lean` -/
+def gcn3Dispatch (fmt op : Nat) : Option (ScalarIn → ScalarOut) :=
+  match Gen.gcn3.dispatch fmt op with
+  | some f => some f
+  | none => Hand.gcn3.dispatch fmt op
+def cdna3Dispatch (fmt op : Nat) : Option (ScalarIn → ScalarOut) :=
+  match Gen.cdna3.dispatch fmt op with
+  | some f => some f
+  | none => Hand.cdna3.dispatch fmt op
+
+/-- the modelled handler of an instruction; operand widths as in the specification table (they are
+    the decoder's, property C04).  A handler the translator lists as hand-modelled for which
+    `C03S_Hand.lean` has no transcription falls back to the specification function itself. -/
+def genSemOf (disp : Nat → Nat → Option (ScalarIn → ScalarOut)) (tab : List (Nat × Nat × String))
+    (d : DInst) : Option Sem := do
   let o ← Spec.find d.fmt d.op
-  let (disp, tab) := if arch == "gen.gcn3" then (Gen.gcn3.dispatch, Gen.gcn3.table) else (Gen.cdna3.dispatch, Gen.cdna3.table)
   match disp d.fmt d.op with
   | some f => some ⟨o.dstW, o.src0W, o.src1W, f⟩
   | none => if tab.any (fun r => r.1 == d.fmt && r.2.1 == d.op) then some ⟨o.dstW, o.src0W, o.src1W, o.f⟩ else none
+
+def genSem (arch : String) (d : DInst) : Option Sem :=
+  if arch == "gen.gcn3" then genSemOf gcn3Dispatch Gen.gcn3.table d else genSemOf cdna3Dispatch Gen.cdna3.table d
+
+/-- a straight run of scalar instructions: each is executed on the state the previous one left
+    (`none`: an instruction has no semantics / an unsupported operand) -/
+def run (sem : DInst → Option Sem) : List DInst → MState → Option MState
+  | [], st => some st
+  | d :: ds, st =>
+    match sem d with
+    | none => none
+    | some s =>
+      match execute s d st with
+      | none => none
+      | some st' => run sem ds st'
 
 def handle (line : String) : String :=
   match Util.words line with
